@@ -970,7 +970,9 @@ func checkDescConsistency(
 	}
 
 	// Is the desc consistent with the content of the metric?
-	lpsFromDesc := make([]*dto.LabelPair, len(desc.constLabelPairs), len(dtoMetric.Label))
+	// The capacity must not be derived from the collected metric: with
+	// fewer labels than the Desc has const labels, make would panic.
+	lpsFromDesc := make([]*dto.LabelPair, len(desc.constLabelPairs), len(desc.constLabelPairs)+len(desc.variableLabels.names))
 	copy(lpsFromDesc, desc.constLabelPairs)
 	for _, l := range desc.variableLabels.names {
 		lpsFromDesc = append(lpsFromDesc, &dto.LabelPair{
